@@ -132,12 +132,60 @@ def _run_patch_twin(args):
         shutil.rmtree(tmp, ignore_errors=True)
 
 
+def _run_seed(args):
+    """a kept seeded change (seeded/<id>/patch.diff) that is recorded as caught for this property:
+    at least one of the property's rules must report a finding the tree itself does not have"""
+    sid, rules = args
+    import subprocess
+    diff = os.path.join(HERE, 'seeded', sid, 'patch.diff')
+    tmp = tempfile.mkdtemp(prefix='rsx_seed_')
+    try:
+        shutil.copytree(os.path.join(REPO, 'rsome'), os.path.join(tmp, 'rsome'),
+                        ignore=shutil.ignore_patterns('__pycache__'))
+        pr = subprocess.run(['patch', '-p1', '-s', '--no-backup-if-mismatch', '-i', diff], cwd=tmp,
+                            capture_output=True, text=True)
+        if pr.returncode != 0:
+            return {'id': 'SEED-' + sid, 'kind': 'mutant', 'rule': '*', 'status': 'stale',
+                    'detail': 'patch no longer applies (the tree has moved on)'}
+        hits, blind = [], []
+        for rid in rules:
+            try:
+                base = _findings(REPO, rid)
+                got = _findings(tmp, rid)
+                hits += [k for k in got if k not in base]
+            except AnalysisError as exc:
+                blind.append('%s: %s' % (rid, str(exc)[:80]))
+        return {'id': 'SEED-' + sid, 'kind': 'mutant', 'rule': '*',
+                'status': 'killed' if hits else 'survived', 'detail': hits[:2] or blind[:2]}
+    finally:
+        shutil.rmtree(tmp, ignore_errors=True)
+
+
+def seeds_for(prop):
+    import json
+    out = []
+    d = os.path.join(HERE, 'seeded')
+    if not os.path.isdir(d):
+        return out
+    for sid in sorted(os.listdir(d)):
+        mp = os.path.join(d, sid, 'meta.json')
+        if not os.path.isfile(mp):
+            continue
+        try:
+            meta = json.load(open(mp))
+        except ValueError:
+            continue
+        if meta.get('breaks_property') == prop and prop in meta.get('checks_that_fire_now', []):
+            out.append(sid)
+    return out
+
+
 def patch_twins():
     d = os.path.join(HERE, 'selftest', 'twins')
     return sorted(f[:-5] for f in os.listdir(d) if f.endswith('.diff')) if os.path.isdir(d) else []
 
 
-def run_for_rules(rules, jobs=None):
+def run_for_rules(rules, jobs=None, prop=None):
     entries = [e for e in catalogue() if e['rule'] in rules]
     jobs = jobs or min(16, max(1, len(entries)))
     results = []
@@ -156,6 +204,11 @@ def run_for_rules(rules, jobs=None):
                                     'detail': detail})
     except ImportError:
         pass
+    if prop is not None:
+        sd = [(sid, sorted(rules)) for sid in seeds_for(prop)]
+        if sd:
+            with ProcessPoolExecutor(max_workers=min(16, len(sd))) as ex:
+                results.extend(ex.map(_run_seed, sd))
     tw = [(name, sorted(rules)) for name in patch_twins()]
     if tw:
         with ProcessPoolExecutor(max_workers=min(16, len(tw))) as ex:
